@@ -246,6 +246,8 @@ class Tr(object):
                     if b.kind == "view":
                         return "(drop %s %s)" % (b.off, b.coq)
                     raise Unsupported("use of %s as a value" % n)
+                if n == "NOREASONS":
+                    return "(@nil reason)"
                 if re.fullmatch(r"[A-Z][A-Z0-9_]*", n):
                     return self.const_num(n)
                 if n == "None":
@@ -454,6 +456,9 @@ class Tr(object):
             return "(Some %s)" % self.pure(args[0], env)
         if segs == ["log_data"]:
             return "tt"
+        if segs == ["Flow", "wrap"] and self.cfg.get("wrap_fields") and args[0][0] == "path" and args[0][1][0] in env and env[args[0][1][0]].kind == "struct":
+            b = env[args[0][1][0]]
+            return "(" + ", ".join(b.fields[f] for f in self.cfg["wrap_fields"]) + ")"
         if segs == ["add_close_reason"]:
             raise Impure()
         if segs[-2:] == ["str", "from_utf8"]:
@@ -477,7 +482,7 @@ class Tr(object):
 
     def pure_mcall(self, e, env):
         recv, name, args = e[1], e[2], e[3]
-        if name in ("copy_from_slice", "try_write", "write_all"):
+        if name in ("copy_from_slice", "try_write", "write_all", "push"):
             raise Impure()
         # iterator chains on byte slices
         if name == "position" and len(args) == 1:
@@ -623,6 +628,9 @@ class Tr(object):
                 t = self.fresh()
                 return self.cps(inner[1], env, lambda v, env2: "match %s with Some %s => %s | None => %s end" % (
                     v, t, k(t, env2), self.err_of(errv[2])))
+            if self.ty_of(inner, env) == "res":
+                t = self.fresh("r")
+                return "bind %s (fun %s => %s)" % (self.pure(inner, env), t, k(t, env))
             if self.info.kind == "option":
                 t = self.fresh()
                 return self.cps(inner, env, lambda v, env2: "match %s with Some %s => %s | None => None end" % (v, t, k(t, env2)))
@@ -723,6 +731,9 @@ class Tr(object):
         if e[0] == "mcall":
             recv, name, args = e[1], e[2], e[3]
             # side-effect statements on buffers / writers
+            if name == "push" and len(args) == 1 and recv[0] == "path" and recv[1][0] in env and env[recv[1][0]].mutable and env[recv[1][0]].ty == "reasons":
+                v = env[recv[1][0]].coq
+                return "bind (push_reason %s %s) (fun %s => %s)" % (v, self.pure(args[0], env), v, k("tt", env))
             if name == "copy_from_slice":
                 return self.copy_from_slice(recv, args[0], env, k)
             if name == "try_write":
@@ -1032,11 +1043,17 @@ class Tr(object):
             if b.kind == "view":
                 off = "(N.add %s %s)" % (b.off, off)
             return nxt(self.bind(env, name, B("view", b.coq, off=off)))
-        if x[0] == "struct" and x[1] in STRUCTS:
+        structs = dict(STRUCTS)
+        structs.update(self.cfg.get("structs", {}))
+        if x[0] == "struct" and x[1] in structs:
             fields = dict(x[2])
+            if sorted(fields) != sorted(structs[x[1]]):
+                raise Unsupported("fields of struct %s" % x[1])
             out = []
             fm = {}
-            for f in STRUCTS[x[1]]:
+            for f in structs[x[1]]:
+                if x[1] in self.cfg.get("structs", {}) and f not in self.cfg.get("wrap_fields", []):
+                    continue          # a field the translated result does not report
                 c = "%s_%s" % (cn(name), f)
                 out.append("let %s := %s in" % (c, self.pure(fields[f], env)))
                 fm[f] = c
@@ -1051,7 +1068,7 @@ class Tr(object):
                 del env3["__alias__" + v]
                 env3["__order__"] = [n for n in env3["__order__"] if n != "__alias__" + v]
                 return "let %s := %s in %s" % (c, v, nxt(self.bind(env3, name, nb)))
-            return "let %s := %s in %s" % (c, v, nxt(self.bind(env2, name, B("val", c, mutable=mutable, ty=self.ty_of(e, env2)))))
+            return "let %s := %s in %s" % (c, v, nxt(self.bind(env2, name, B("val", c, mutable=mutable, ty=self.cfg.get("local_types", {}).get(name) or self.ty_of(e, env2)))))
         return self.cps(e, env, after)
 
     def rebind_from(self, env, env_after):
@@ -1330,9 +1347,13 @@ PREAMBLE2 = """(* GENERATED by tools/rs2coq2.py from the repository sources on e
    Whole functions of the crate translated to Gallina in state-passing style (see the header of tools/rs2coq2.py for the
    scheme). proofs/Gen2_equiv_*.v prove each equal to the hand-written model's function. *)
 From Coq Require Import NArith Bool List.
-From Hoot Require Import Base Chunk Body Url Request Call Flow GenLib Gen.
+From Hoot Require Import Base Chunk Body Httparse Parser Url Request Call Flow GenLib Gen.
 Open Scope N_scope.
 Open Scope bool_scope.
+(* the model's readings of the http crate's accessors on a parsed response (the same expressions Flow.recv_try_response uses) *)
+Definition resp_status (r : response) : N := rs_status r.
+Definition resp_last_location (r : response) : option bytes := last_opt (hm_get_all (rs_headers r) (s2b "location")).
+Definition resp_has_close (r : response) : bool := headers_has (hm_iter (rs_headers r)) (s2b "connection") (s2b "close").
 """
 
 
@@ -1492,6 +1513,29 @@ FLOWFUNCS = [
          params=[("inner_close_reason", "mutval", "list reason", None), ("inner_should_send_body", "mutval", "bool", None),
                  ("inner_await_100_continue", "mutval", "bool", None), ("parsed", "val", "res (option (N * N))", "res")],
          rust_ret="Result<usize, Error>"),
+    dict(coq="gen_flow_new", file="src/client/flow.rs", impl=r"impl<B>\s+Flow<B,\s*Prepare>", rust="new",
+         subst=[(r"ArrayVec::from_fn\(\|_\| CloseReason::Http10\)", "NOREASONS"), (r"request\.version\(\) == Version::HTTP_10", "is_http10"),
+                (r"request\s*\.headers\(\)\s*\.iter\(\)\s*\.has\(\"connection\", \"close\"\)", "has_connection_close"),
+                (r"request\.method\(\)\.need_request_body\(\)", "need_body"),
+                (r"request\s*\.headers\(\)\s*\.iter\(\)\s*\.has_expect_100\(\)", "has_expect"), (r"CallHolder::new\(request\)", "call_new_result")],
+         params=[("is_http10", "val", "bool", None), ("has_connection_close", "val", "bool", None), ("need_body", "val", "bool", None),
+                 ("has_expect", "val", "bool", None), ("call_new_result", "val", "res unit", "res")],
+         structs={"Inner": ["call", "close_reason", "should_send_body", "await_100_continue", "status", "location"]},
+         wrap_fields=["close_reason", "should_send_body", "await_100_continue"],
+         local_types={"close_reason": "reasons"}, rust_ret="Result<Self, Error>"),
+    # the response is a value of the model's type; what the function asks of it (status, last Location, Connection: close) are the
+    # model's readings of the http crate's accessors (resp_* in GenLib / Flow.v)
+    dict(coq="gen_try_response", file="src/client/flow.rs", impl=r"impl<B>\s+Flow<B,\s*RecvResponse>", rust="try_response",
+         subst=[(r"self\s*\.inner\s*\.call\s*\.as_recv_response_mut\(\)\s*\.try_response\(input\)", "call_result"),
+                (r"self\.inner\.", "inner_"),
+                (r"response\s*\.headers\(\)\s*\.get_all\(\"location\"\)\s*\.into_iter\(\)\s*\.last\(\)\s*\.cloned\(\)", "resp_last_location(response)"),
+                (r"response\s*\.headers\(\)\s*\.iter\(\)\s*\.has\(\"connection\", \"close\"\)", "resp_has_close(response)"),
+                (r"response\.status\(\)", "resp_status(response)")],
+         params=[("inner_close_reason", "mutval", "list reason", None), ("inner_await_100_continue", "mutval", "bool", None),
+                 ("inner_status", "mutval", "option N", None), ("inner_location", "mutval", "option bytes", None),
+                 ("call_result", "val", "res (option (N * response))", "res")],
+         known=["resp_status", "resp_last_location", "resp_has_close"],
+         rust_ret="Result<(usize, Option<Response<()>>), Error>"),
 ]
 
 
@@ -1508,7 +1552,8 @@ def translate_custom(text, cfg):
         raise Unsupported("trailing tokens")
     ps = [(n, k, t) for n, k, t, _ in cfg["params"]]
     info = FnInfo(cfg["coq"], ps, "res", rust_ret=cfg["rust_ret"])
-    tr = Tr(cfg, {}, {})
+    known = dict(((None, n), FnInfo(n, [("r", "val", "")], "plain")) for n in cfg.get("known", []))
+    tr = Tr(cfg, {}, known)
     tr.info = info
     tr.types = {}
     env = {"__order__": []}
